@@ -312,13 +312,13 @@ theorem strChar_head {c : Bytes} (h : strCharOk c = true) :
     exact ⟨a, [], rfl, h2.1.2, h2.2, BitVec.not_lt.mpr h2.1.1⟩
   | [a, b], hwf, _ =>
     simp [utf8Wf] at hwf
-    refine ⟨a, [b], rfl, ?_, ?_, ?_⟩ <;> bv_decide
+    refine ⟨a, [b], rfl, ?_, ?_, ?_⟩ <;> bv_decide (timeout := 300)
   | [a, b, c], hwf, _ =>
     simp [utf8Wf] at hwf
-    refine ⟨a, [b, c], rfl, ?_, ?_, ?_⟩ <;> bv_decide
+    refine ⟨a, [b, c], rfl, ?_, ?_, ?_⟩ <;> bv_decide (timeout := 300)
   | [a, b, c, d], hwf, _ =>
     simp [utf8Wf] at hwf
-    refine ⟨a, [b, c, d], rfl, ?_, ?_, ?_⟩ <;> bv_decide
+    refine ⟨a, [b, c, d], rfl, ?_, ?_, ?_⟩ <;> bv_decide (timeout := 300)
   | [], hwf, _ => simp [utf8Wf] at hwf
   | _ :: _ :: _ :: _ :: _ :: _, hwf, _ => simp [utf8Wf] at hwf
 
